@@ -35,39 +35,51 @@ def card_expr(fn):
 
 
 def sampling_facts(chk):
-    """Locate the constructs of CVR.consistent_sampling (shared with C10)."""
+    """Locate the constructs of CVR.consistent_sampling by role, not by the spelling of locals (shared with C10)."""
     fn = chk.fn(REL, "CVR.consistent_sampling")
+    params = [a.arg for a in fn.args.args]
+    if not all(p in params for p in ("cvr_list", "contests", "sampled_cvr_indices")):
+        raise AnalysisError("consistent_sampling: signature changed")
     f = {"fn": fn}
     whiles = [s for s in fn.body if isinstance(s, ast.While)]
     if len(whiles) != 1:
         raise AnalysisError("consistent_sampling: expected exactly one while loop")
     f["while"] = whiles[0]
-    # the progress lambda
+    # the progress lambda: the one that reads .sample_size
     lam = None
     for st in fn.body:
-        if isinstance(st, ast.Assign) and isinstance(st.value, ast.Lambda):
-            if "sample_size" in norm(st.value):
-                lam = st
+        if isinstance(st, ast.Assign) and isinstance(st.value, ast.Lambda) and "sample_size" in norm(st.value):
+            lam = st
     if lam is None:
         raise AnalysisError("consistent_sampling: in-progress predicate not found")
     f["progress_name"] = norm(lam.targets[0])
     f["progress_lambda"] = lam.value
-    # sorted order
+    # the counter it reads: NAME[...] inside the lambda body
+    subs = [n for n in ast.walk(lam.value.body) if isinstance(n, ast.Subscript) and isinstance(n.value, ast.Name)]
+    f["counter"] = subs[0].value.id if subs else None
+    # sorted order: the assignment whose value sorts cvr_list
     so = [st for st in fn.body if isinstance(st, ast.Assign) and any(
         isinstance(c, ast.Call) and norm(c.func) == "sorted" and c.args and "cvr_list" in norm(c.args[0]) for c in ast.walk(st.value))]
     if len(so) != 1:
         raise AnalysisError("consistent_sampling: sorted order not found")
     f["sorted_stmt"] = so[0]
     f["sorted_name"] = norm(so[0].targets[0])
-    # walk index: the name incremented in the while body
-    incs = [s for s in walk_local(whiles[0]) if isinstance(s, (ast.AugAssign,)) and isinstance(s.target, ast.Name)]
-    names = {s.target.id for s in incs if parent(s) is whiles[0] or True}
+    # walk index: the name augmented in the while body that indexes the sorted order
+    incs = [s for s in walk_local(whiles[0]) if isinstance(s, ast.AugAssign) and isinstance(s.target, ast.Name)]
+    names = {s.target.id for s in incs}
     idx_names = [n for n in names if f"{f['sorted_name']}[{n}]" in norm(whiles[0])]
     if len(idx_names) != 1:
         raise AnalysisError("consistent_sampling: walk index not found")
     f["inx"] = idx_names[0]
     f["card_index"] = f"{f['sorted_name']}[{f['inx']}]"
     f["card"] = f"cvr_list[{f['card_index']}]"
+    # the set of selected cards: the receiver of `.add(<current card index>)`, or (older shape) the list appended to
+    adds = [c for c in walk_local(whiles[0]) if isinstance(c, ast.Call) and isinstance(c.func, ast.Attribute) and c.func.attr in ("add", "append")
+            and c.args and norm(c.args[0]) == f["card_index"]]
+    f["takes"] = adds
+    f["selected"] = norm(adds[0].func.value) if adds else None
+    rets = [r for r in walk_local(fn) if isinstance(r, ast.Return)]
+    f["returns"] = rets
     return f
 
 
@@ -96,6 +108,7 @@ def run(chk):
     f = sampling_facts(chk)
     r1(chk, f)
     r2(chk, f)
+    result_rule(chk, f, "C07.R1")
     r3(chk, f)
     r4(chk, f)
     r5(chk)
@@ -147,6 +160,28 @@ def r1(chk, f):
            paths=len(ps), bad_paths=len(bad))
 
 
+def result_rule(chk, f, rule):
+    """the reported sample = the sorted order filtered by membership in the selection (each index once, ascending sample number)"""
+    fn, where = f["fn"], W("CVR.consistent_sampling")
+    rets = f["returns"]
+    ok = False
+    detail = {}
+    if len(rets) == 1 and parent(rets[0]) is fn:
+        rv = rets[0].value
+        expr = rv
+        if isinstance(rv, ast.Name):
+            defs = [s for s in fn.body if isinstance(s, ast.Assign) and norm(s.targets[0]) == rv.id and s.lineno > f["while"].lineno]
+            expr = defs[-1].value if defs else None
+        if isinstance(expr, ast.ListComp):
+            elt, tgt, it, ifs = aud.single_gen(expr)
+            detail["result"] = norm(expr)
+            ok = norm(elt) == norm(tgt) and norm(it) == f["sorted_name"] and len(ifs) == 1 and f["selected"] is not None \
+                and norm(ifs[0]) == f"{norm(tgt)}in{f['selected']}"
+    chk.ob(rule, where, "reported-in-sample-number-order-without-repetition", ok,
+           "the reported sample is the sorted (sample-number) order filtered by membership in the set of selected cards: every selected "
+           "card exactly once, in sample-number order -- in first and in continued rounds alike", node=rets[0] if rets else fn, strength="N", **detail)
+
+
 def any_guard(node):
     """any([... for c, con in contests.items()]) -> (elt, convar) or None"""
     if isinstance(node, ast.Call) and norm(node.func) == "any" and len(node.args) == 1 and isinstance(node.args[0], (ast.ListComp, ast.GeneratorExp)):
@@ -171,7 +206,7 @@ def r2(chk, f):
     chk.ob("C07.R2", where, "loop-while-any-in-progress", ok,
            "the walk continues exactly while some contest is still in progress", node=w, strength="N")
     prog = Tx(env={"c": E(S("con"))}).cond(f["progress_lambda"].body) if f["progress_lambda"].args.args[0].arg == "c" else progress_cond(f, "con")
-    want_p = spec.cond_term("current_sizes[con.id] < con.sample_size")
+    want_p = spec.cond_term(f"{f['counter']}[con.id] < con.sample_size")
     chk.ob("C07.R2", where, "in-progress=count<sample_size", aud.cond_equiv(progress_cond(f, "con"), want_p)[0],
            "a contest is in progress iff its current count is strictly below its sample size", node=f["progress_lambda"], strength="N",
            extracted=fmt_cond(progress_cond(f, "con")))
@@ -185,15 +220,19 @@ def r2(chk, f):
         got = tx_with_progress(f).cond(elt)
         want = c_and(progress_cond(f, con), Tx().cond(ast.parse(f"{f['card']}.has_contest({con}.id)", mode="eval").body))
         okg, n, cex = aud.cond_equiv(got, want)
-        apps = [c for c in walk_local(t) if isinstance(c, ast.Call) and norm(c.func) == "sampled_cvr_indices.append"]
-        in_body = all(any(a is t for a in ancestors(c)) and not any(a in t.orelse for a in ancestors(c)) for c in apps)
-        other_apps = [c for c in walk_local(fn) if isinstance(c, ast.Call) and norm(c.func) == "sampled_cvr_indices.append" and c not in apps]
-        ok = okg and len(apps) == 1 and norm(apps[0].args[0]) == f["card_index"] and in_body and not other_apps and not t.orelse
-        detail = dict(guard=fmt_cond(got), rows=n, appended=norm(apps[0].args[0]) if apps else None)
+        apps = [c for c in f["takes"] if any(a is t for a in ancestors(c))]
+        in_body = all(not any(a in t.orelse for a in ancestors(c)) for c in apps)
+        other_apps = [c for c in f["takes"] if c not in apps]
+        # every other way of putting an index into the selection (besides the initial copy of the earlier sample) is forbidden
+        sel = f["selected"]
+        foreign = [norm(c)[:60] for c in walk_local(fn) if isinstance(c, ast.Call) and isinstance(c.func, ast.Attribute) and sel
+                   and norm(c.func.value) == sel and c.func.attr in ("add", "append", "update", "extend", "insert") and c not in f["takes"]]
+        ok = okg and len(apps) == 1 and in_body and not other_apps and not t.orelse and not foreign
+        detail = dict(guard=fmt_cond(got), rows=n, selected=norm(apps[0]) if apps else None, other_insertions=foreign)
         f["take"] = t
     chk.ob("C07.R2", where, "take-iff-lists-unfinished-contest", ok,
-           "the current card is appended only under the guard `some contest is in progress and the card lists it`, and nowhere else; "
-           "what is appended is the current card's index", node=takes[0] if takes else w, strength="N", **detail)
+           "the current card enters the selection only under the guard `some contest is in progress and the card lists it`, and nowhere "
+           "else; what enters is the current card's index", node=takes[0] if takes else w, strength="N", **detail)
     chk.exhaustive = True
 
 
@@ -214,7 +253,7 @@ def r3(chk, f):
                 want = c_and(progress_cond(f, con), Tx().cond(ast.parse(f"{f['card']}.has_contest({con}.id)", mode="eval").body))
                 okg = aud.cond_equiv(got, want)[0]
                 thr = [(tt, v, s) for tt, v, s in stores(i) if isinstance(tt, ast.Attribute) and tt.attr == "sample_threshold"]
-                cnt = [s for s in i.body if isinstance(s, ast.AugAssign) and norm(s.target) in (f"current_sizes[{key}]", f"current_sizes[{con}.id]")
+                cnt = [s for s in i.body if isinstance(s, ast.AugAssign) and norm(s.target) in (f"{f['counter']}[{key}]", f"{f['counter']}[{con}.id]")
                        and isinstance(s.op, ast.Add) and norm(s.value) == "1"]
                 ok = okg and len(thr) == 1 and norm(thr[0][0].value) == con and norm(thr[0][1]) == f"{f['card']}.sample_num" \
                     and len(cnt) == 1 and parent(thr[0][2]) is i and parent(cnt[0]) is i
@@ -281,7 +320,9 @@ def r5(chk):
             t, val, s = sts[0]
             reads = {n.attr for n in ast.walk(val) if isinstance(n, ast.Attribute) and norm(n.value) == v}
             uses_card = any(isinstance(n, ast.Name) and n.id == v for n in ast.walk(val))
-            ok = norm(t) == f"{v}.sample_num" and not uses_card and "prng" in norm(val)
+            # unconditional (a guard such as `if cvr.sample_num is None` would make the numbers depend on the cards' history
+            # and leave the PRNG un-advanced for some cards), and computed from the generator parameter alone
+            ok = norm(t) == f"{v}.sample_num" and not uses_card and "prng" in norm(val) and parent(s) is l
             detail = dict(statement=norm(s))
     chk.ob("C07.R5", where, "one-number-per-card-from-prng-only", ok,
            "each card, in list order, gets one sample number computed from the PRNG alone (no attribute of the card is read)",
